@@ -45,6 +45,8 @@ def gen_box(rng, d: int, cls: str | None = None) -> dict:
             return [-1e6, 1e6]
         if c == "offset":
             return [1e6, 1e6 + 1.0]
+        if c == "needle":
+            return [-5.0, 5.0]
         if c == "nano":
             # narrower than the step of a numerical derivative (1.5e-8), next to zero: a probe "x + h" clipped to the box by h = upper - x
             # is only inside if that subtraction and addition round the right way
